@@ -1500,8 +1500,11 @@ def run_graph_case(ctx, classes, defaults, W, mros, g, lines, impls, metas, with
     flags = sorted(n for n, o in w.objs.items() if getattr(o.__xpm__, "_validated", None) is True)
     v2 = call_validate()
     out = {"validate": v1, "again": v2, "flags": flags}
-    # (c) submit on fresh objects
-    if with_submit:
+    # (c) submit on fresh objects (a cyclic graph that passes validation only runs into the RecursionError of
+    # `updatedependencies`: cyclic configurations cannot be submitted at all, DESIGN §9)
+    if with_submit and cyc and v1 == "ok":
+        ctx.count("submit_outcome", "skipped-cyclic")
+    elif with_submit:
         w2 = build_graph(g, classes, W)
         r2 = w2.objs[g["root"]]
         init = [w2.objs[m] for m in g["nodes"][g["root"]]["init"]]
